@@ -7,5 +7,5 @@ git checkout -q -- vector_quantize_pytorch
 PYTHONPATH=$WT timeout 900 /venv/bin/python -W ignore _seeded/demo.py > $OUT/demo_without.log 2>&1; echo "demo without change: exit $?" > $OUT/confirm.log
 git apply _seeded/patch.diff
 PYTHONPATH=$WT timeout 900 /venv/bin/python -W ignore _seeded/demo.py > $OUT/demo_with.log 2>&1; echo "demo with change: exit $?" >> $OUT/confirm.log
-PYTHONPATH=$WT timeout 1800 /venv/bin/python -m pytest -q -p no:cacheprovider --timeout=900 tests 2>&1 | tail -2 >> $OUT/confirm.log
+OMP_NUM_THREADS=2 MKL_NUM_THREADS=2 PYTHONPATH=$WT timeout 1800 /venv/bin/python -m pytest -q -p no:cacheprovider --timeout=900 tests 2>&1 | tail -2 >> $OUT/confirm.log
 cat $OUT/confirm.log
